@@ -146,7 +146,44 @@ class DtConv:
             return None
 
 
-CONVS = {'int': IntConv, 'uuid': UuidConv, 'path': PathConv, 'float': FloatConv, 'dt': DtConv}
+class RepConv:
+    """custom converter whose constructor REQUIRES an argument: '{x:rep}' cannot be instantiated, '{x:rep(2)}' can."""
+    def __init__(self, times):
+        self.times = times
+
+    def convert(self, v):
+        return v * self.times
+
+
+class SafeConv:
+    """custom path-consuming converter that may veto: refuses '..' and empty segments."""
+    multi = True
+
+    def convert(self, segs):
+        if '..' in segs or '' in segs:
+            return None
+        return '|'.join(segs)
+
+
+CONVS = {'int': IntConv, 'uuid': UuidConv, 'path': PathConv, 'float': FloatConv, 'dt': DtConv, 'rep': RepConv, 'safe': SafeConv}
+
+
+# the same two custom converters as the application would register them with the real router
+class RealRep:
+    def __init__(self, times):
+        self._times = times
+
+    def convert(self, value):
+        return value * self._times
+
+
+class RealSafe:
+    CONSUME_MULTIPLE_SEGMENTS = True
+
+    def convert(self, value):
+        if '..' in value or '' in value:
+            return None
+        return '|'.join(value)
 
 
 def make_conv(name, args):
@@ -374,6 +411,8 @@ def reps_for_segment(seg):
                     '2020-01-02 03:04:05+01:00', '20200102T030405Z']
         if conv == 'path':
             return ['zz', '']
+        if conv == 'safe':
+            return ['zz', '..', '']
         return ['zz', '']
     # multi-field: natural instance, empty field, repeated/extra separator
     lits = [p[1] for p in pieces if p[0] == 'lit']
@@ -430,6 +469,7 @@ def run_history(hist, mode, rep, maxdepth, sig_extra=None):
     """hist: tuple of templates; mode: 'lazy' (lookups after every add, compile on demand) or
     'eager' (compile=True on every add, lookups only at the end)."""
     router = CompiledRouter()
+    router.options.converters.update({'rep': RealRep, 'safe': RealSafe})
     model = RefRouter()
     accepted = []
     for idx, t in enumerate(hist):
@@ -525,7 +565,9 @@ def same_params(a, b):
 CONV_KINDS = ['{p:float}', '{p:float(min=0)}', '{p:float(max=2.5)}', '{p:float(min=1, max=2)}', '{p:float(finite=False)}',
               '{p:float(min=-5, finite=False)}', '{p:float(max=5, finite=False)}', '{p:float(min=1, max=2, finite=False)}',
               '{p:float(finite=None)}', '{p:dt}', '{p:dt("%Y-%m-%d")}',
-              '{s:float(min=-5, finite=False)}_{t}', '{s:float}_{t}', '{s:float(max=5, finite=False)}_{u:int}']
+              '{s:float(min=-5, finite=False)}_{t}', '{s:float}_{t}', '{s:float(max=5, finite=False)}_{u:int}',
+              # custom converters: un-instantiable without arguments (must be rejected, nothing changes); a consuming one that vetoes
+              '{p:rep}', '{p:rep(2)}', '{r:safe}', 'a/{r:safe}', 'a/{p:rep}']
 CONV_NEXT = ['{q}', '{q}/{w}', 'a', '{q:int}', '{s}_{t}', '{r:path}']
 
 
